@@ -4,9 +4,9 @@ Anchors: mitmproxy/addons/tlsconfig.py alpn_select_callback, TlsConfig.tls_start
 override), TlsConfig.tls_start_server (upstream offers), mitmproxy/proxy/layers/tls.py HTTP_ALPNS / HTTP1_ALPNS.
 
 (T) translate(): the real alpn_select_callback is CALLED on the whole class domain
-      client_alpn in {None, 7 classes} x server_alpn in {None, b"", 7 classes} x http2 in {off,on}
-      x every offer list of length <= 4 without repetition over the 7 classes
-    (classes: the five HTTP_ALPNS in their order, and two unknown protocols) and the results are written, one base-9
+      client_alpn override in {None, b"http/1.1" (secure web proxy)} x server_alpn in {None, b"", 6 classes} x http2 in {off,on}
+      x every offer list of length <= 3 without repetition over the 6 classes  (32 x 157 = 5 024 calls)
+    (classes: the five HTTP_ALPNS in their order, and one unknown protocol) and the results are written, one base-9
     number per configuration, into lean/MitmVerif/Gen/C18.lean.  Props/C18.lean proves the property theorems over that
     table by `decide +kernel`, proves it equal to the hand model, and lifts to offer lists of any length.
 (C) cb: the callback on random inputs (arbitrary byte strings, long lists, repetitions) vs. the compiled model;
@@ -125,8 +125,8 @@ def server_offers(client_offers, preset, http2):
 class Check(PropertyCheck):
     prop = "C18"
     design_ref = "§5 C18"
-    level_text = ("The real alpn_select_callback is tabulated by calling it on the whole class domain (8 client_alpn x 9 upstream "
-                  "x 2 http2 x 1100 offer lists of length <=4 over 7 protocol classes = 158 400 calls) into Gen/C18.lean on every run; "
+    level_text = ("The real alpn_select_callback is tabulated by calling it on the class domain (override none / secure-web-proxy x 8 upstream "
+                  "states x 2 http2 x 157 offer lists of length <=3 without repetition over 6 protocol classes = 5 024 calls) into Gen/C18.lean on every run; "
                   "Lean proves by kernel evaluation over that table: selected is offered or none, secure-web-proxy override selects only "
                   "http/1.1, upstream mirrored / HTTP/2 never selected with http2 off under the reachability guard, and the table equals "
                   "the hand model; a lifting lemma (the callback inspects only membership of one needle and the first HTTP protocol) "
@@ -139,12 +139,15 @@ class Check(PropertyCheck):
                   "not proved); TLS guarantees the upstream-negotiated protocol is one mitmproxy offered upstream. Two properties hold only "
                   "under the guard 'upstream protocol is among this client's offers / is not h2 when http2 is off'; outside it the real "
                   "callback falls back to the client's first HTTP protocol (recorded findings F-C18a, F-C18b; *_partial and "
-                  "*_counterexample in Lean).")
+                  "*_counterexample in Lean). Deviation from DESIGN §5: the table has offer lists of length <=3 (not <=4) and only the two "
+                  "overrides mitmproxy itself produces, because kernel evaluation costs ~5 ms per entry here; the lifting lemma needs length <=2 "
+                  "only, other overrides (addon-set client.alpn) and longer lists are covered by the all-inputs model theorems and the "
+                  "differential runs. The byte-string -> class abstraction step is not proved in Lean (the generic theorems hold for byte strings directly).")
     technique = "Lean 4 proof (decide +kernel over a table regenerated by calling the code, lifting lemma, generic model theorems) + translator + differential and real-handshake correspondence"
     rule = ("cb: random (client_alpn, server_alpn, http2, offers) with protocols drawn from the 5 HTTP ALPNs, unknown protocols, the empty "
             "string and random bytes; offers of length 0..12 with repetitions; srv: random client offers / preset / http2; hs: real handshake "
             "for offers x upstream x http2 x secure-web-proxy. distinct = distinct case; non-trivial = offers non-empty.")
-    budget = {"quick": 30000, "thorough": 600000}
+    budget = {"quick": 15000, "thorough": 400000}
     time_budget = {"quick": 20, "thorough": 400}
     fingerprints = ["mitmproxy.addons.tlsconfig:alpn_select_callback",
                     "mitmproxy.addons.tlsconfig:TlsConfig.tls_start_client",
